@@ -14,6 +14,7 @@ import (
 	"github.com/fatedier/frp/pkg/msg"
 	plugin "github.com/fatedier/frp/pkg/plugin/server"
 	httppkg "github.com/fatedier/frp/pkg/util/http"
+	netpkg "github.com/fatedier/frp/pkg/util/net"
 	"github.com/fatedier/frp/server/controller"
 	"github.com/fatedier/frp/server/proxy"
 	"github.com/fatedier/frp/verif"
@@ -420,7 +421,7 @@ func verifWorkerRelease(pxy proxy.Proxy) bool {
 // request to the client; a closed pool yields an error, not a nil connection.
 //
 //verif:contract (*~/server.Control).GetWorkConn
-//verif:props C11
+//verif:props C11 C16
 func verif_GetWorkConn(ctl *Control) {
 	verif.ResetEvents()
 	wait := time.Duration(ctl.serverCfg.UserConnTimeout) * time.Second
@@ -760,6 +761,25 @@ func verif_server_NewService_quic_tls(cfg *v1.ServerConfig) {
 //verif:loopexit (*~/server.Service).HandleListener 1 check=verifAcceptLoopEndsOnlyWithTheListener args=l
 func verifAcceptLoopEndsOnlyWithTheListener(l net.Listener) bool {
 	return verif.CalledWithInIter("net.Listener).Accept", 0, l) && verif.IterRet[error]("net.Listener).Accept", 1) != nil && !verif.CalledInIter("CheckAndEnableTLSServerConnWithTimeout")
+}
+
+// One completed iteration of the accept loop: a connection whose TLS sniff
+// failed (plain first bytes on a TLS-only server, a silent peer, a broken
+// handshake) is closed - the connection the listener returned, whatever the
+// sniffer handed back (closing the context wrapper built around it closes it) -
+// and gets no handler goroutine; every other connection
+// gets one.
+//
+//verif:loopbody (*~/server.Service).HandleListener 1 check=verifAcceptStep args=l
+func verifAcceptStep(l net.Listener) bool {
+	const evSniff = "CheckAndEnableTLSServerConnWithTimeout"
+	if !verif.CalledInIter("net.Listener).Accept") || verif.IterRet[error]("net.Listener).Accept", 1) != nil {
+		return false
+	}
+	if verif.CalledInIter(evSniff) && verif.IterRet[error](evSniff, 3) != nil {
+		return verif.CalledWithInIter("ContextConn).Close", 0, verif.IterRet[*netpkg.ContextConn]("net.NewContextConn", 0)) && !verif.CalledInIter("go:")
+	}
+	return verif.CalledInIter("go:") && !verif.CalledInIter("Conn).Close")
 }
 
 //verif:contract (*~/server.Service).HandleListener
